@@ -393,8 +393,15 @@ def centre_case_st(draw):
     case = draw(dump_case_st(kmax=K))
     keys = draw(st.lists(st.integers(1, K + 1), min_size=1, max_size=max(1, K - 1) if draw(st.integers(0, 3)) else K + 1,
                          unique=True))
-    how = draw(st.sampled_from(["arbitrary", "arbitrary", "arbitrary", "shifted", "rank", "identity", "merged"]))
-    if how == "identity":
+    how = draw(st.sampled_from(["arbitrary", "arbitrary", "arbitrary", "shifted", "rank", "identity", "merged",
+                                "zero-based", "wide"]))
+    if how == "zero-based":
+        # molecule types counted from zero / any integers: the map's VALUES are labels, not indices (seeded C19-D used 0
+        # as the "not a centre" sentinel of a lookup table and dropped the atoms mapped to 0)
+        mol = {k: i for i, k in enumerate(sorted(keys))}
+    elif how == "wide":
+        mol = {k: draw(st.sampled_from([0, -1, 7, 12, 100, 2**31 - 1])) for k in keys}
+    elif how == "identity":
         mol = {k: k for k in keys}
     elif how == "rank":
         mol = {k: i + 1 for i, k in enumerate(sorted(keys))}
